@@ -344,6 +344,8 @@ pub fn replay_session(prop: &str, case: &Value, out: &mut Out) {
 // C13: time budget
 
 struct TimeCase {
+    /// stretch the window between creating the timer thread and raising the running flag (ms)
+    delay_ms: u64,
     white_to_move: bool,
     w: u64,
     b: u64,
@@ -360,7 +362,7 @@ impl TimeCase {
         }
     }
     fn json(&self) -> Value {
-        json!({"kind":"time","white_to_move":self.white_to_move,"cmd":self.cmd(),"wtime":self.w,"btime":self.b,"winc":self.wi,"binc":self.bi,"movetime":self.movetime})
+        json!({"kind":"time","white_to_move":self.white_to_move,"cmd":self.cmd(),"wtime":self.w,"btime":self.b,"winc":self.wi,"binc":self.bi,"movetime":self.movetime,"delay_ms":self.delay_ms})
     }
     fn available(&self) -> u64 {
         match self.movetime {
@@ -402,20 +404,25 @@ fn gen_time_case(rng: &mut Rng) -> TimeCase {
         }
     };
     if rng.chance(1, 6) {
-        return TimeCase { white_to_move: rng.chance(1, 2), w: 0, b: 0, wi: 0, bi: 0, movetime: Some(match rng.below(4) { 0 => rng.range(0, 6), 1 => rng.range(0, 500), 2 => rng.range(500, 100_000), _ => rng.range(0, 60) }) };
+        return TimeCase { delay_ms: 0, white_to_move: rng.chance(1, 2), w: 0, b: 0, wi: 0, bi: 0, movetime: Some(match rng.below(4) { 0 => rng.range(0, 6), 1 => rng.range(0, 500), 2 => rng.range(500, 100_000), _ => rng.range(0, 60) }) };
     }
     let w = clock(rng);
     let b = clock(rng);
     let wi = inc(rng, w);
     let bi = inc(rng, b);
-    TimeCase { white_to_move: rng.chance(1, 2), w, b, wi, bi, movetime: None }
+    TimeCase { delay_ms: 0, white_to_move: rng.chance(1, 2), w, b, wi, bi, movetime: None }
 }
 
 fn c13_one(out: &mut Out, sess: &mut Option<Session>, checked: bool, tc: &TimeCase, wall_limit_for_wait: u64) {
     let fen_w = "r1bqkbnr/pppp1ppp/2n5/4p3/4P3/5N2/PPPP1PPP/RNBQKB1R w KQkq - 2 3";
     let fen_b = "rnbqkbnr/pppp1ppp/8/4p3/4P3/5N2/PPPP1PPP/RNBQKB1R b KQkq - 1 2";
     if sess.is_none() {
-        *sess = Session::spawn(&engine_bin(checked), &[], &[], None).ok();
+        let envs: Vec<(String, String)> = if tc.delay_ms > 0 {
+            vec![("VERIF_DELAY_AFTER_TIMER_SPAWN".into(), tc.delay_ms.to_string()), ("VERIF_DELAY_BEFORE_RAISE".into(), tc.delay_ms.to_string())]
+        } else {
+            vec![]
+        };
+        *sess = Session::spawn(&engine_bin(checked), &[], &envs, None).ok();
         if let Some(s) = sess.as_mut() {
             s.keep_log = true;
         }
@@ -535,7 +542,7 @@ fn c13_one(out: &mut Out, sess: &mut Option<Session>, checked: bool, tc: &TimeCa
             out.add("announcements_timed", 1);
             let t = t_ms.unwrap_or(0) as u64;
             out.maxi("max_overrun_ms", el.as_millis().saturating_sub(t as u128) as u64);
-            if el.as_millis() as u64 > t + 2000 {
+            if el.as_millis() as u64 > t + 2000 + 2 * tc.delay_ms {
                 out.viol("C13-silence", &format!("C13|late|{sig_base}"), &format!("{}: bestmove after {} ms with a budget of {t} ms", tc.cmd(), el.as_millis()), case.clone());
             }
         }
@@ -560,27 +567,52 @@ pub fn worker_c13(shard: usize, _nshards: usize, seed: u64, tier: &str, out: &mu
     };
     let mut sess: Option<Session> = None;
     let mut sess_chk: Option<Session> = None;
+    let mut sess_delayed: Option<Session> = None;
     // fixed boundary cases first (every shard takes a slice)
     let fixed: Vec<TimeCase> = {
         let mut v = vec![];
         for (w, wi) in [(1000u64, 0u64), (0, 0), (7499, 0), (7500, 0), (7501, 0), (100, 5000), (149, 0), (150, 0), (151, 0), (8000, 0), (60000, 1000), (10, 100000), (7400, 1), (1, 149), (1, 150), (1, 151)] {
-            v.push(TimeCase { white_to_move: true, w, b: 60000, wi, bi: 0, movetime: None });
-            v.push(TimeCase { white_to_move: false, w: 60000, b: w, wi: 0, bi: wi, movetime: None });
+            v.push(TimeCase { delay_ms: 0, white_to_move: true, w, b: 60000, wi, bi: 0, movetime: None });
+            v.push(TimeCase { delay_ms: 0, white_to_move: false, w: 60000, b: w, wi: 0, bi: wi, movetime: None });
         }
         for m in [0u64, 1, 2, 3, 4, 5, 6, 10, 100, 499] {
-            v.push(TimeCase { white_to_move: m % 2 == 0, w: 0, b: 0, wi: 0, bi: 0, movetime: Some(m) });
+            v.push(TimeCase { delay_ms: 0, white_to_move: m % 2 == 0, w: 0, b: 0, wi: 0, bi: 0, movetime: Some(m) });
+            v.push(TimeCase { delay_ms: 60, white_to_move: m % 2 == 1, w: 0, b: 0, wi: 0, bi: 0, movetime: Some(m) });
         }
         v
     };
     for (i, tc) in fixed.iter().enumerate() {
         if i % 16 == shard % 16 {
             out.begin(&tc.json());
-            c13_one(out, &mut sess, false, tc, 300);
+            if tc.delay_ms > 0 {
+                out.add("cases_with_stretched_timer_window", 1);
+                c13_one(out, &mut sess_delayed, false, tc, 300);
+            } else {
+                c13_one(out, &mut sess, false, tc, 300);
+            }
             out.end();
         }
     }
     for i in 0..n {
-        let tc = gen_time_case(&mut rng);
+        let mut tc = gen_time_case(&mut rng);
+        if i % 9 == 8 {
+            // low clocks / tiny move times with the timer window stretched: the budget must
+            // still end the search
+            tc.delay_ms = 60;
+            if tc.movetime.is_none() {
+                tc.w = rng.range(0, 9000);
+                tc.b = rng.range(0, 9000);
+                tc.wi = rng.range(0, 60);
+                tc.bi = rng.range(0, 60);
+            } else {
+                tc.movetime = Some(rng.range(0, 40));
+            }
+            out.begin(&tc.json());
+            out.add("cases_with_stretched_timer_window", 1);
+            c13_one(out, &mut sess_delayed, false, &tc, 300);
+            out.end();
+            continue;
+        }
         out.begin(&tc.json());
         let checked = i % 5 == 4;
         if checked {
@@ -590,7 +622,7 @@ pub fn worker_c13(shard: usize, _nshards: usize, seed: u64, tier: &str, out: &mu
         }
         out.end();
     }
-    for s in [sess, sess_chk].iter_mut() {
+    for s in [sess, sess_chk, sess_delayed].iter_mut() {
         if let Some(s) = s.as_mut() {
             s.send("quit");
             let _ = s.wait_exit(Duration::from_secs(5));
@@ -611,6 +643,7 @@ pub fn run_c13(tier: &str, seed: u64) -> i32 {
         let mut o2 = Out::open(res.to_str().unwrap());
         let c = &v["case"];
         let tc = TimeCase {
+            delay_ms: c["delay_ms"].as_u64().unwrap_or(0),
             white_to_move: c["white_to_move"].as_bool().unwrap_or(true),
             w: c["wtime"].as_u64().unwrap_or(0), b: c["btime"].as_u64().unwrap_or(0),
             wi: c["winc"].as_u64().unwrap_or(0), bi: c["binc"].as_u64().unwrap_or(0), movetime: c["movetime"].as_u64(),
@@ -638,12 +671,14 @@ pub fn run_c13(tier: &str, seed: u64) -> i32 {
     chk.need("cases with increment above the clock", agg.c("cases_increment_above_clock"), 20);
     chk.need("movetime cases", agg.c("movetime_cases"), 50);
     chk.need("announcements timed", agg.c("announcements_timed"), 50);
-    chk.need("cases on the overflow-checking build", agg.c("time_cases_on_checked_build"), 50);
+    chk.need("cases on the debug-assertions build", agg.c("time_cases_on_checked_build"), 50);
+    chk.need("cases with the timer window stretched", agg.c("cases_with_stretched_timer_window"), 50);
     finalize(chk, &agg)
 }
 
 pub fn replay_c13(case: &Value, out: &mut Out) {
     let tc = TimeCase {
+        delay_ms: case["delay_ms"].as_u64().unwrap_or(0),
         white_to_move: case["white_to_move"].as_bool().unwrap_or(true),
         w: case["wtime"].as_u64().unwrap_or(0), b: case["btime"].as_u64().unwrap_or(0),
         wi: case["winc"].as_u64().unwrap_or(0), bi: case["binc"].as_u64().unwrap_or(0), movetime: case["movetime"].as_u64(),
